@@ -190,7 +190,15 @@ ParenText == {<<H("a"), If(<<Br(c1, <<H("(1)")>>), Br(c2, <<H("(2)")>>)>>, e, 1)
                 c1 \in {BoolL(TRUE), BoolL(FALSE)}, c2 \in {BoolL(TRUE), BoolL(FALSE)}, e \in {NoElse, <<H("(e)")>>, <<H("( e")>>}}
              \cup {<<Each("v", a, <<H("(b)"), Continue(1), H("(never)")>>, <<H("(e)")>>, 1), H("(z)")>> : a \in {ArrL(<<>>), ArrL(<<IntL(1)>>)}}
              \cup {<<Each("v", ArrL(<<IntL(1), IntL(2)>>), <<P(V), Break(1), H("(never)")>>, NoElse, 1), H("(z)")>>}
-EmptyBodies == ParenText \cup
+\* the same construct evaluated several times with conditions whose truth changes from pass to pass
+LoopConds == {<<Each("v", a, <<If(<<Br(c1, <<H("F")>>), Br(c2, <<H("L")>>)>>, <<H("-")>>, 1)>>, NoElse, 1)>> :
+                a \in {Var("ar"), ArrL(<<IntL(0), IntL(1), IntL(0)>>)},
+                c1 \in {LoopF("first"), Bin("==", LoopF("index"), IntL(1)), Idx(ArrL(<<BoolL(FALSE), BoolL(TRUE), BoolL(FALSE)>>), LoopF("index")), V},
+                c2 \in {LoopF("last"), Bin(">", LoopF("iter"), IntL(1)), Dot(ObjL(<<[key |-> "k", ex |-> V]>>), "k")}}
+             \cup {<<Each("v", Var("ar"), <<P(Tern(LoopF("first"), StrL("F"), Tern(LoopF("last"), StrL("L"), StrL("-"))))>>, NoElse, 1)>>,
+                   <<For(Assign("i", IntL(0), 1), Bin("<", Var("i"), IntL(3)), Post("++", Var("i")),
+                         <<If(<<Br(Idx(Var("ar"), Var("i")), <<P(Var("i"))>>), Br(Bin("==", Var("i"), IntL(1)), <<H("one")>>)>>, <<H("-")>>, 1)>>, NoElse, 1)>>}
+EmptyBodies == ParenText \cup LoopConds \cup
                {<<H("a"), If(<<Br(c1, b1)>>, e, 1), H("z")>> : c1 \in {BoolL(TRUE), BoolL(FALSE)}, b1 \in {<<>>, <<H("[1]")>>}, e \in {NoElse, <<>>, <<H("[e]")>>}}
           \cup {<<H("a"), If(<<Br(c1, b1), Br(c2, b2)>>, e, 1), H("z")>> : c1 \in {BoolL(TRUE), BoolL(FALSE)}, c2 \in {BoolL(TRUE), BoolL(FALSE)},
                                                                        b1 \in {<<>>, <<H("[1]")>>}, b2 \in {<<>>, <<H("[2]")>>}, e \in {NoElse, <<>>, <<H("[e]")>>}}
